@@ -1,9 +1,15 @@
 package s0316
 
+type G2 struct {
+	F1x0x0 *int64
+}
+
+type G1 struct {
+	F1x0 G2
+	F1x1 uint32
+}
 
 type T struct {
 	F0 *int32
-	F1 *int64
-	F2 []uint32
-	F3 *uint64
+	F1 G1
 }
